@@ -79,6 +79,8 @@ type Case struct {
 	OwnVerif string `json:"own_verif,omitempty"`
 	// IL: the interleaving sub-check (TestInterleave): issuances and key rotations under a schedule the harness owns.
 	IL *Interleave `json:"il,omitempty"`
+	// Fault: the storage fails during one issuing request of the flow under test (fault_test.go).
+	Fault *FaultSpec `json:"fault,omitempty"`
 }
 
 // Earlier is one earlier issuance.
@@ -340,6 +342,9 @@ func genCase(t *rapid.T) Case {
 		genEarlier(t, &c)
 	}
 	c.OwnVerif = rapid.SampledFrom(ownVerifModes).Draw(t, "ownverif")
+	if rapid.IntRange(0, 5).Draw(t, "fault") == 5 {
+		genFault(t, &c)
+	}
 	return c
 }
 
@@ -480,6 +485,11 @@ type env struct {
 	tl      *timeline
 	epoch0  int  // number of rotations completed when the issuing request in flight was started
 	skipped bool // the flow was not driven to its end for a reason that is the configuration's (labelled grey)
+	// storage fault of the case (fault_test.go)
+	nMain      int    // issuing requests of the flow under test so far
+	faultArmed bool   // the fault plan is in the storage (for the request about to be sent)
+	faultFired bool   // a storage call of the request answered last failed by injection
+	hist       string // what preceded the faulted request
 }
 
 func (e *env) issuerOf(a *vkit.Agent) string {
@@ -499,6 +509,7 @@ func (e *env) fail(fp, format string, args ...any) { e.res.Fail(fp, format, args
 
 // checkResp reports panics; returns false if the response cannot be used.
 func (e *env) checkResp(step string, r *vkit.Resp) bool {
+	e.afterRequest(r)
 	if r == nil {
 		e.fail("C06:flow-incomplete:"+step, "%s: no response", step)
 		return false
@@ -539,6 +550,9 @@ func (e *env) authorize(step string, mainStep bool, a0, a1 *vkit.Agent, cl *vkit
 		return
 	}
 	if !cb.IsRedirect() {
+		if e.faulted() {
+			return
+		}
 		e.fail("C06:flow-incomplete:"+step+":callback", "%s: callback did not redirect: %s", step, cb.Describe())
 		return
 	}
@@ -547,6 +561,13 @@ func (e *env) authorize(step string, mainStep bool, a0, a1 *vkit.Agent, cl *vkit
 
 // rotate switches the provider to the new signing key; the old public key stays in the published set.
 func (e *env) rotate(mainStep bool) {
+	e.rotateKey(mainStep)
+	if mainStep && e.tl == nil {
+		e.armFault()
+	}
+}
+
+func (e *env) rotateKey(mainStep bool) {
 	if e.tl != nil {
 		// called right before every request that issues tokens: the keys in force for it start here
 		e.epoch0 = e.tl.epoch()
@@ -701,6 +722,9 @@ func newEnv(c Case, res *vkit.Result, st *vkit.Store, sut *vkit.SUT, cl, helper,
 // refused: the issuing request of the current step was refused. Reports whether that is the expected outcome (the storage
 // supplied an unencodable claim to this very issuance: no token can be built from it).
 func (e *env) refused(step string, r *vkit.Resp) bool {
+	if e.faulted() {
+		return true
+	}
 	if e.bad == "" || e.hook.reached() == 0 {
 		return false
 	}
@@ -835,7 +859,9 @@ func (e *env) runFlow() []*issuance {
 		t1 := time.Now()
 		if e.checkResp("jwt_bearer", r) {
 			if !r.Success() || r.JSON() == nil {
-				e.fail("C06:flow-incomplete:jwt_bearer", "jwt-bearer grant refused: %s", r.Describe())
+				if !e.faulted() {
+					e.fail("C06:flow-incomplete:jwt_bearer", "jwt-bearer grant refused: %s", r.Describe())
+				}
 			} else {
 				is := e.newIssuance("jwt_bearer", true, "jwt_bearer", e.main, nil, t0, t1, fromJSON(r.JSON()))
 				is.ClientID, is.Skew = cl.ID, 0 // the grant has no registered client: the assertion issuer acts as client, without clock skew
@@ -959,6 +985,13 @@ func run(c Case) (res *vkit.Result) {
 	if c.Rotate != nil && c.Rotate.Alg != c.Sign.Alg {
 		res.Label("key-rotated:other-algorithm")
 	}
+	if f := c.Fault; f != nil {
+		m := f.Method
+		if m == "" {
+			m = "k-th-call"
+		}
+		res.Label("fault:planned", "fault:planned:"+m, "fault:kind:"+f.Kind)
+	}
 	if e.slow {
 		res.Grey = true
 		res.Label("grey:slow-clock")
@@ -1002,6 +1035,9 @@ func rollKey(c Case) string {
 	}
 	if c.Rotate != nil && c.Rotate.Alg != c.Sign.Alg {
 		out += "|rot>" + c.Rotate.Alg
+	}
+	if f := c.Fault; f != nil {
+		out += fmt.Sprintf("|fault=%s#%d/%s@%d", f.Method, f.Call, f.Kind, f.At)
 	}
 	for i, s := range c.Earlier {
 		if i == 0 {
@@ -1055,7 +1091,9 @@ func (e *env) refreshFlow() []*issuance {
 			return all
 		}
 		if !r.Success() || r.JSON() == nil {
-			e.fail("C06:flow-incomplete:refresh", "%s refused: %s", step, r.Describe())
+			if !e.faulted() {
+				e.fail("C06:flow-incomplete:refresh", "%s refused: %s", step, r.Describe())
+			}
 			return all
 		}
 		is := e.newIssuance(step, true, "refresh", e.main, e.cl, t0, t1, fromJSON(r.JSON()))
@@ -1197,7 +1235,9 @@ func (e *env) exchangeFlow() []*issuance {
 		return all
 	}
 	if !r.Success() || r.JSON() == nil {
-		e.fail("C06:flow-incomplete:exchange", "token exchange refused: %s", r.Describe())
+		if !e.faulted() {
+			e.fail("C06:flow-incomplete:exchange", "token exchange refused: %s", r.Describe())
+		}
 		return all
 	}
 	ts := fromJSON(r.JSON())
@@ -1231,6 +1271,9 @@ var prop = vkit.Prop[Case]{
 		"In a quarter of the cases 1-3 EARLIER issuances (code / implicit / device / client_credentials, for users, scope sets, nonces and a second client of their own) run on the same provider and storage before the flow under test and are judged alike; " +
 		"during about half of them the storage supplies a custom claim of the custom scope that encoding/json cannot encode (NaN, +Inf, chan, func, map[any]any, failing Marshaler, complex; inside the custom claim's object or as a claim of its own; " +
 		"in the private claims of JWT access tokens and in the userinfo claims of id tokens): such an issuance may be refused (nothing asserted about it), every LATER response of the case must still carry only what belongs to its own request. " +
+		"In a sixth of the cases the STORAGE FAILS during one issuing request of the flow under test (refresh: either round): every call of one method (Storage.SigningKey, KeySet, SignatureAlgorithms, GetPrivateClaimsFromScopes, SetUserinfoFromScopes, CreateAccessToken, CreateAccessAndRefreshTokens) or the 1st-12th storage call of that request whatever it is, " +
+		"with an error value of 14 styles (plain, *oidc.Error, wrapped, context.DeadlineExceeded / Canceled plain and wrapped, the library's sentinels); such cases more often also carry earlier issuances and a rotation of the signing key (to the same or another algorithm), so that the failing request follows successful issuances under the previous key: " +
+		"a faulted request answered with an error asserts nothing, whatever tokens it returns are judged by the unchanged oracle (signed with the key that is current NOW, verifying over /keys, claims, hashes, stored token). " +
 		"Excluded: opaque subject tokens and requested_token_type=jwt in token exchange (crash / empty token: findings of C09/C15), form_post delivery (C11). " +
 		"non-trivial = non-RS256 key, or skew>0, or JWT access token, or non-code flow; distinct = product cell",
 	Gen: genCase,
